@@ -211,9 +211,23 @@ def enum_core(shard, nshards):
                                "payloads": payloads, "drivers": drivers, "trigger": t}
 
 
+def enum_long_cleanup(shard, nshards):
+    """cleanup that takes longer than any plausible grace period: the blocking call must still wait for it (one scenario per trigger
+    flavour; SystemExit is the trigger after which asyncio's own teardown does not wait for the trio thread)"""
+    for i, flv in enumerate(("threading", "asyncio")):
+        if i % nshards != shard:
+            continue
+        payloads = [{"id": 11, "flavour": "trio", "role": "victim", "state": "sleeping", "reg": {"how": "pre"}, "program": [["sleep", 600000]],
+                     "end": ["forever"], "cleanup": {"sync_ms": 0, "shield_ms": 11000}},
+                    {"id": 1, "flavour": flv, "role": "trigger", "reg": {"how": "pre"}, "program": [["sleep", 10]], "end": ["raise", "SystemExit"]}]
+        yield {"runner": "service", "accept_delay": 0.01, "switchinterval": None, "bound_s": 40, "linger_ms": 1500, "payloads": payloads, "drivers": [[]],
+               "trigger": {"kind": "failure", "flavour": flv, "end": ["raise", "SystemExit"], "at_ms": 10}}
+
+
 def tests(tier):
     t = [TestDef("scenarios", run_case, strategy=scenario(), quick=400, thorough=15000, shards_quick=16, shrink_budget=40, slow=True),
-         TestDef("exhaustive-core", run_case, enumerate=enum_core, exhaustive=True, shards_quick=16, shards_thorough=16)]
+         TestDef("exhaustive-core", run_case, enumerate=enum_core, exhaustive=True, shards_quick=16, shards_thorough=16),
+         TestDef("long-cleanup", run_case, enumerate=enum_long_cleanup, exhaustive=True, shards_quick=2, shards_thorough=2)]
     for td in t:
         td.replay_runs = 10
     return t
